@@ -1262,10 +1262,8 @@ func (e *engine) flow() {
 		c.NoteChange(i)
 	}
 	// watchers registered before the node's last change were last called with the final value
-	finalR := model.CloneDesc(wantR)
-	finalR.RemoveTombstones(time.Time{})
-	finalP := model.ClonePDesc(wantP)
-	finalP.RemoveTombstones(time.Time{})
+	finalR := model.StripDesc(wantR)
+	finalP := model.StripPDesc(wantP)
 	for _, w := range c.Watches {
 		if w.Ended || w.Epoch != c.Epoch[w.Node] || c.Changes[w.Node] == w.ChangeAt {
 			continue // it was ended, its node was restarted, or nothing changed since it was registered
